@@ -41,6 +41,15 @@ def Sl.ofVal : Val → Option Sl
   | .slice _ _ es => some (some es.toList)
   | _ => none
 
+/-- `list[:j]` (and `list` itself) shares the backing array of `list` unless that array is empty
+(`len + spare = 0`): what filter, the hash path of unique, and sort return -/
+def viewAliases (len spare : Nat) : Bool := decide (len + spare > 0)
+
+/-- `append(this, x₁ … xₖ)` one element at a time stays in the backing array of `this` exactly when
+all `k` elements fit into its spare capacity (Go reallocates at the first append that does not fit
+and never returns to the old array); an empty backing array is shared with nothing -/
+def appendAliases (len spare added : Nat) : Bool := decide (len + spare > 0) && decide (added ≤ spare)
+
 /-! ### Oracles: user functions with observable call order -/
 
 /-- a user-supplied function value: called with an element and the oracle state -/
